@@ -31,6 +31,24 @@ def c_align_up(ex, recv, args, kwargs, q, node):
     return [(r, q)]
 
 
+def c_align_to(ex, recv, args, kwargs, q, node):
+    """call-site contract of self.align_to(alignment) (proved in verify_align_to): raises ValueError for a bad alignment,
+    otherwise moves the cursor to the least multiple of 2**max(alignment, self.alignment) and returns it"""
+    al = as_dyn(args[0], q)
+    h = q.ghost[("handles", id(recv))]
+    cur = ex.toint(ex.getattr(recv, "_next_addr", q, node)[0][0])
+    bad = q.fork(); bad.assume(z3.Not(z3.And(al.tag == T_INT, al.ival >= 0)))
+    q.assume(z3.And(al.tag == T_INT, al.ival >= 0))
+    r = z3.FreshInt("cursor")
+    q.assume(least_multiple_ge(r, cur, z3.If(al.ival >= h["al"], al.ival, h["al"])))
+    q.heap[(id(recv), "_next_addr")] = r
+    q.writes.append((recv.name, "_next_addr"))
+    out = [(r, q)]
+    if ex.feasible(bad.pc):
+        out.append((Raised("ValueError"), bad))
+    return out
+
+
 def car_post(view, aw, al_map, next_addr, addr, size, step, alignment, start, stop):
     """post-condition of MemoryMap._compute_addr_range on normal return (range(start, stop, step))"""
     P = pow2(alignment)
@@ -108,6 +126,7 @@ def base_exec():
     ex = Exec(FILE, "MemoryMap", axioms=AX)
     ex.contracts["self._align_up"] = c_align_up
     ex.contracts["self._compute_addr_range"] = c_compute_addr_range
+    ex.contracts["self.align_to"] = c_align_to
     ex.contracts["MemoryMap.Name"] = mm.name_contract
     ex.contracts["''.join"] = lambda ex, recv, a, k, q, n: [(Opaque("str"), q)]
     ex.contracts["\", \".join"] = lambda ex, recv, a, k, q, n: [(Opaque("str"), q)]
